@@ -14,7 +14,7 @@ import json
 import os
 
 from . import common, explore, srv, srv_alpha, srv_check, tlc
-from . import cli, cli_alpha, simple, threads, adisc, pubsub, admin
+from . import cli, cli_alpha, simple, threads, adisc, pubsub, admin, asimple
 from .tla_lit import lit
 
 BASE_INV = ['TypeOK']
@@ -108,7 +108,17 @@ PLAN.update({
         'quick': ['cstate_quick', 'cacks_quick'],
         'thorough': ['cstate_fn', 'cacks_fn', 'cacks_class'],
     },
+    'C19a': {
+        'fam': 'asimple',
+        'inv': ['C19_Order', 'C19_DisconnectedOnlyAfterFinal',
+                'C19_NoErrorWhileEventAvailable',
+                'C19_EmitWaitsOutReconnection'],
+        'quick': ['asc_quick', 'asc_drop', 'asc_final', 'asc_emit',
+                  'asc_emit_final', 'asc_mix'],
+        'thorough': list(asimple.CONFIGS),
+    },
     'C19': {
+        'also': ['C19a'],
         'fam': 'simple',
         'inv': ['C19_Order', 'C19_DisconnectedOnlyAfterFinal',
                 'C19_NoErrorWhileEventAvailable',
@@ -177,7 +187,8 @@ def _simple_consts(cfg):
     return {'NArr': cfg['arrivals'],
             'App': [{'op': o[0], 'to': bool(o[1]) if len(o) > 1 else False}
                     for o in cfg['app']],
-            'Conn': list(cfg['conn']), 'Dev': set(cfg.get('dev', []))}
+            'Conn': list(cfg['conn']), 'Atomic': bool(cfg.get('atomic')),
+            'Dev': set(cfg.get('dev', []))}
 
 
 class _ThreadsAlpha:
@@ -230,6 +241,12 @@ FAMILIES = {
                   alpha=_ThreadsAlpha, consts=_threads_consts,
                   adapter=lambda c: adisc.AsyncDiscAdapter(c),
                   no_alphabet=True, variants=('asyncio',), base_inv=[]),
+    'asimple': dict(spec='SimpleClient', graph='SimpleClientGraph',
+                    configs={k: dict(v, alpha='sched', dev=['D9'])
+                             for k, v in asimple.CONFIGS.items()},
+                    alpha=_SimpleAlpha, consts=_simple_consts,
+                    adapter=lambda c: asimple.AsyncSimpleAdapter(c),
+                    no_alphabet=True, variants=('asyncio',), base_inv=[]),
     'simple': dict(spec='SimpleClient', graph='SimpleClientGraph',
                    configs={k: dict(v, alpha='sched', dev=['D9'])
                             for k, v in simple.CONFIGS.items()},
